@@ -494,8 +494,13 @@ def _type_check_builtin_reference(expression, source_file_name, errors):
         assert False, "Unknown builtin '{}'.".format(name)
 
 
-def _type_check_array_size(expression, source_file_name, errors):
-    _type_check_integer(expression, source_file_name, errors, "Array size")
+def _type_check_array_size(array_type, source_file_name, errors):
+    # Only the element count itself must be an integer; its subexpressions (for
+    # example, the condition of a '?:') may have any type.
+    if array_type.which_size == "element_count":
+        _type_check_integer(
+            array_type.element_count, source_file_name, errors, "Array size"
+        )
 
 
 def _type_check_field_location(location, source_file_name, errors):
@@ -651,7 +656,7 @@ def check_types(ir):
     )
     traverse_ir.fast_traverse_ir_top_down(
         ir,
-        [ir_data.ArrayType, ir_data.Expression],
+        [ir_data.ArrayType],
         _type_check_array_size,
         skip_descendants_of={ir_data.AtomicType},
         parameters={"errors": errors},
